@@ -47,6 +47,7 @@ func (l *L2) waitReturn(c int, d time.Duration) bool {
 func runScenario(sc Scenario) M {
 	gauge0 := hw.VerifConnectedClients()
 	sess0 := models.VerifSessionGauge()
+	gaugeL0, sessL0 := hw.VerifConnectedClientsByLabel(), models.VerifSessionGaugeByLabel()
 	time.Sleep(5 * time.Millisecond)
 	g0, _ := hagallGoroutines()
 	l := NewL2(sc.Config)
@@ -236,6 +237,8 @@ func runScenario(sc Scenario) M {
 	time.Sleep(10 * time.Millisecond)
 	out["clients_gauge_delta"] = int(hw.VerifConnectedClients() - gauge0)
 	out["sessions_gauge_delta"] = int(models.VerifSessionGauge() - sess0)
+	out["clients_gauge_imbalance"] = labelImbalance(gaugeL0, hw.VerifConnectedClientsByLabel())
+	out["sessions_gauge_imbalance"] = labelImbalance(sessL0, models.VerifSessionGaugeByLabel())
 	out["sessions_left"] = len(l.store.VerifSessions())
 	g1, stacks := hagallGoroutines()
 	if g1 > g0 {
